@@ -1,27 +1,34 @@
-import sys; sys.path.insert(0,'/tmp/wp_mpsc/lean/MayVerif/Proof/Queue/Mpsc/gen')
+import os
+import sys; sys.path.insert(0,os.path.dirname(os.path.abspath(__file__)))
 from ctors import *
-consumer = ['nAlloc0','nAlloc1','nLink','nRet','oBlk','oIdx','oTry','oTail','oSpin','oStore','rFree','rNext','rHead','bIdx','bBlk','bFast','bStore','bTail','bCopy','kIdx','kTail','kBlk','kSpin','lIdx','lTail','dHead','dTail','dNext','dFree1','dFree2','dFree3']
+consumer = ['nAlloc0','nAlloc1','nLink','nRet','oBlk','oIdx','oTry','oTail','oSpin','oRead','oStore','rFree','rNext','rHead','bIdx','bBlk','bFast','bFastRd','bStore','bTail','bCopy','bCopyRd','kIdx','kTail','kBlk','kSpin','kRead','lIdx','lTail','dHead','dTail','dNext','dFree1','dFree2','dFree3']
 T=lambda l: {c:'true' for c in l}
 defs=[]
 defs.append(gen_def('isNew','Bool','false',T(['nAlloc0','nAlloc1','nLink']),'inside `Queue::new` before the queue exists'))
 defs.append(gen_def('isCons0','Bool','false',T(consumer),'program points of `new`, the consumer API and `Drop`: actor 0 only'))
 defs.append(gen_def('inClose','Bool','false',T(['pAlloc','pWait','pLink','pTail']),'the closer after its slot write'))
-defs.append(gen_def('closerPc','Bool','false',T(['pSet','pAlloc','pWait','pLink','pTail']),'where the closer can be'))
+defs.append(gen_def('closerPc','Bool','false',T(['pWrite','pSet','pAlloc','pWait','pLink','pTail']),'where the closer can be'))
 defs.append(gen_def('pastAlloc','Bool','false',T(['pWait','pLink','pTail']),'the closer has allocated the next-next block'))
 defs.append(gen_def('unlinked','Bool','false',T(['pWait','pLink']),'… but not linked it yet'))
 defs.append(gen_def('inRetire','Bool','false',T(['rFree','rNext','rHead']),'hand-over of the head block: `head.index` is stored, `head.block` not yet'))
 defs.append(gen_def('atNextHead','Bool','false',T(['rNext','rHead']),'… and `old_block` already replaced'))
-defs.append(gen_def('taken','Nat','0',{'oStore':'1','bFast':'acc.length','bCopy':'acc.length','bStore':'acc.length'},'values taken (at level A) by the current operation whose `head.index` store is still to come'))
+defs.append(gen_def('taken','Nat','0',{'oStore':'1','bFast':'acc.length','bFastRd':'acc.length','bCopy':'acc.length','bCopyRd':'acc.length','bStore':'acc.length'},'values taken (at level A) by the current operation whose `head.index` store is still to come'))
 defs.append(gen_def('dropDone','Bool','false',T(['dFree2','dFree3','ret','idle']),'`Drop` has started freeing (or the actor is between operations)'))
 defs.append('@[grind] def kd : K → Bool | .pop d _ => d | .bulk _ => false\n')
-defs.append(gen_def('dflag','Bool','false',{'oBlk':'d','oIdx':'d','oTry':'d','oTail':'d','oSpin':'d','oStore':'d','rFree':'kd k','rNext':'kd k','rHead':'kd k','dHead':'true','dTail':'true','dNext':'true','dFree1':'true','dFree2':'true','dFree3':'true'},'inside `Drop`'))
+defs.append(gen_def('dflag','Bool','false',{'oBlk':'d','oIdx':'d','oTry':'d','oTail':'d','oSpin':'d','oRead':'d','oStore':'d','rFree':'kd k','rNext':'kd k','rHead':'kd k','dHead':'true','dTail':'true','dNext':'true','dFree1':'true','dFree2':'true','dFree3':'true'},'inside `Drop`'))
 defs.append(gen_def('dEnd','Bool','false',T(['dHead','dTail','dNext','dFree1']),'`Drop` after its pop loop, before the frees'))
-defs.append(gen_def('cwaits','Bool','false',T(['oSpin','kBlk','kSpin','bCopy']),'the consumer waits for a slot that `push_index()` counted'))
+defs.append(gen_def('cwaits','Bool','false',T(['oSpin','kBlk','kSpin','kRead','bCopy','bCopyRd'])|{'oRead':'sp'},'the consumer waits for a slot that `push_index()` counted'))
 S=lambda l,x: {c:f'some {x}' for c in l}
-defs.append(gen_def('locHb','Option Bid','none',S(['oIdx','oTry','oTail','oSpin','oStore','rFree','rNext','bFast','bStore','bTail','bCopy','kSpin','dTail'],'hb')|{'dNext':'some b','dFree1':'some b','dFree2':'some b'},'local copy of `head.block`'))
-defs.append(gen_def('locPi','Option Nat','none',S(['oTry','oTail','oSpin','oStore','bBlk','bTail','kTail','kBlk','kSpin','lTail'],'pi'),'local copy of `head.index`'))
-defs.append(gen_def('locCi','Option Nat','none',{'bFast':'some ci','bCopy':'some ci','bStore':'some ni'},'logical index the bulk copy has reached'))
-defs.append(gen_def('refBlk','Option Bid','none',{'pCas':'some w.blk','pSet':'some b'},'block whose `start` the projection reads'))
+defs.append(gen_def('locHb','Option Bid','none',S(['oIdx','oTry','oTail','oSpin','oRead','oStore','rFree','rNext','bFast','bFastRd','bStore','bTail','bCopy','bCopyRd','kSpin','kRead','dTail'],'hb')|{'dNext':'some b','dFree1':'some b','dFree2':'some b'},'local copy of `head.block`'))
+defs.append(gen_def('locPi','Option Nat','none',S(['oTry','oTail','oSpin','oRead','oStore','bBlk','bTail','kTail','kBlk','kSpin','kRead','lTail'],'pi'),'local copy of `head.index`'))
+defs.append(gen_def('locCi','Option Nat','none',{'bFast':'some ci','bFastRd':'some ci','bCopy':'some ci','bCopyRd':'some ci','bStore':'some ni'},'logical index the bulk copy has reached'))
+defs.append(gen_def('refBlk','Option Bid','none',{'pCas':'some w.blk','pWrite':'some b','pSet':'some b'},'block whose `start` the projection reads'))
+defs.append(gen_def('wrSlot','Option (Nat × Bid × Nat)','none',{'pWrite':'some (v, b, i)','pSet':'some (v, b, i)'},'value and slot of a producer between its CAS and its `ready` store'))
+defs.append(gen_def('isRd','Bool','false',T(['oRead','bFastRd','bCopyRd','kRead']),'the consumer has read the `ready` flag of slot `head` as set and is about to read the slot'))
+defs.append(gen_def('readBlk','Option Bid','none',S(['oRead','bFastRd','bCopyRd','kRead'],'hb'),'the block of a consumer slot read'))
+defs.append(gen_def('isFast','Bool','false',T(['bFast','bFastRd']),'fast path of `bulk_pop`'))
+defs.append(gen_def('isCopy','Bool','false',T(['bCopy','bCopyRd']),'slow path of `bulk_pop`'))
+defs.append(gen_def('ceOf','Nat','0',{'bCopy':'ce','bCopyRd':'ce'},'… and its logical end index'))
 hdr='''/-
   Bool-valued program-point predicates used by the invariant of the level-B mpsc model (`Inv.lean`).
   Every constructor is listed (no wildcard arm), so that the equation lemmas `grind` unfolds are one per constructor.
@@ -31,4 +38,4 @@ namespace MayVerif.Mpsc
 open MayVerif.MpscA (upd Ret)
 
 '''
-open('/tmp/wp_mpsc/lean/MayVerif/Proof/Queue/Mpsc/Preds.lean','w').write(hdr+'\n'.join(defs)+'\nend MayVerif.Mpsc\n')
+open(os.path.join(os.path.dirname(os.path.dirname(os.path.abspath(__file__))), 'Preds.lean'),'w').write(hdr+'\n'.join(defs)+'\nend MayVerif.Mpsc\n')
